@@ -284,10 +284,11 @@ Proof.
 Qed.
 
 (* ---- the operations of the application ---- *)
-Lemma after_read_F r s0 : Good (fst r) -> incb (fst r) = false -> Post 1 s0 (fst r) -> Post 1 s0 (fst (after_read c nested r)).
+Lemma after_read_F id0 r s0 : Good (fst r) -> incb (fst r) = false -> Post 1 s0 (fst r) ->
+  Post 1 s0 (fst (after_read c nested id0 r)).
 Proof.
   destruct r as [s [rc|]]; cbn [fst after_read]; intros HG Hi P0; [|exact P0].
-  destruct (rc >? 0); [|exact P0]. destruct (sock s); [|exact P0].
+  destruct (rc >? 0); [|exact P0]. destruct (sock s) as [x|]; [|exact P0]. destruct (x =? id0); [|exact P0].
   pose proof (loop_rc_handle_F rc s HG Hi) as P1. destruct (loop_rc_handle c nested rc s) as [s' rc'].
   cbn [fst] in *. exact (Post_trans 1 0 _ _ _ P0 P1).
 Qed.
@@ -296,14 +297,14 @@ Lemma loop_read_F i s : Good s -> incb s = false -> Post 1 s (fst (loop_read c n
 Proof.
   intros HG Hi. pose proof HG as [Hd Hc]. unfold loop_read.
   assert (R0 : Post 1 s s) by (apply (Post_weaken 0 1); [lia|apply Post_refl; exact Hc]).
-  destruct (sock s); [|exact R0].
-  assert (Hdown : forall ok, Post 1 s (fst (after_read c nested (downgrade c nested ok s)))).
+  destruct (sock s) as [id0|]; [|exact R0].
+  assert (Hdown : forall ok, Post 1 s (fst (after_read c nested id0 (downgrade c nested ok s)))).
   { intros ok. unfold downgrade.
     assert (P1 : Post 0 s (set_proto 3 s)) by (apply Post_frame; auto).
     pose proof (reconnect_body_F ok _ (Good_post _ _ _ HG P1)) as P2.
     pose proof (Post_trans 0 1 _ _ _ P1 P2) as P12.
     apply after_read_F; [eapply Good_post; eassumption| |exact P12]. destruct P12 as (_ & A & _). congruence. }
-  assert (Hack : forall rc, Post 1 s (fst (after_read c nested (handle_connack nested rc s)))).
+  assert (Hack : forall rc, Post 1 s (fst (after_read c nested id0 (handle_connack nested rc s)))).
   { intros rc. unfold handle_connack.
     set (sx := if rc =? 0 then match cs s with CsDisconnecting => s | _ => set_cs CsConnected s end else s).
     assert (P1 : Post 0 s sx).
